@@ -83,13 +83,18 @@ pub fn cmd_replay(args: &[String]) -> i32 {
     }
     std::panic::set_hook(Box::new(|_| {}));
     let f = std::fs::File::open(&args[0]).expect("cases");
-    let mut out = std::io::BufWriter::new(std::fs::File::create(&args[1]).expect("events"));
+    // append mode + a marker before every case: if a stack overflow kills this process the driver
+    // sees which case it died on, records it and resumes after it (`--from <case>`)
+    let from: usize = args.iter().position(|a| a == "--from").and_then(|i| args.get(i + 1)).and_then(|v| v.parse().ok()).unwrap_or(0);
+    let mut out = std::io::BufWriter::new(std::fs::OpenOptions::new().create(true).append(true).open(&args[1]).expect("events"));
     let mut n = 0;
     for (ln, line) in std::io::BufReader::new(f).lines().enumerate() {
         let line = line.unwrap();
-        if line.trim().is_empty() || ln % shard.1 != shard.0 {
+        if line.trim().is_empty() || ln % shard.1 != shard.0 || ln < from {
             continue;
         }
+        writeln!(out, "{}", json!({"ev":"Begin","case":ln})).unwrap();
+        out.flush().unwrap();
         let c: Value = serde_json::from_str(&line).unwrap();
         let docs: Vec<Keyed> = serde_json::from_value(c["docs"].clone()).unwrap();
         let root: Vec<String> = serde_json::from_value(c["root"].clone()).unwrap();
